@@ -1,6 +1,8 @@
 import CgtModel.Report
 import CgtModel.Lemmas.Prefix
 import CgtModel.Lemmas.PrepassAppend
+import CgtModel.Lemmas.AppendLedger
+import CgtModel.Lemmas.WellFormed
 import CgtModel.Props.C02
 /-! # C12 — figures for earlier years do not change when later transactions are added
 
@@ -23,8 +25,16 @@ from the pool the history left, with no claims carried over. Hence
   (only those events write offsets), so for one security's day list the whole run (pre-pass + main
   pass) of history ++ continuation is the history's run followed by the continuation's, from the
   history's closing pool.
-Not proved: the lift through preprocessing (that the day list of `l ++ later lines` is the day list of
-`l` followed by that of the later lines); it is exercised by the check on the real code.
+* `C12_ledger_security`, `C12_ledger`, `C12_ledger_refusal` — **from the raw ledger**: for a
+  validator-clean ledger `l ++ s` where every line of `s` is dated more than 30 days after every line
+  of `l`, preprocessing acts on the two parts separately (`Lemmas/AppendLedger.lean`: the stable sort,
+  the fill merge and the BUY coalescing of `l ++ s` are those of `l` followed by those of `s`), every
+  security's day list is the history's followed by the later lines' days, and so: if both ledgers are
+  accepted, each security without capital events among the later lines keeps exactly the history's
+  legs as its first legs; if the history is accepted and the extended ledger refused for such a
+  security, the refusal is raised while running days of `s` from the history's closing pool.
+  (Line order: `l ++ s` is the appended form the property speaks of; any other order of the same lines
+  gives the same day table by C06's permutation theorems.)
 -/
 namespace Cgt.C12
 open Cgt
@@ -139,5 +149,134 @@ theorem C12_security_prefix_stable (t : String) (w : Int) (ps es : List Day) (ho
       rw [e, C12_prefix_stable t w _ _ (allFar_setOffsets _ _ w ps es hfar)]
       have hps : C02.setOffsets (fun d => offsetFor d.ord lots1) ps = ds' := by rw [← hw]; rfl
       rw [hps, h1]
+
+/-! ### from the raw ledger -/
+
+theorem preprocess_ord_mem (s : List Tx) : ∀ y ∈ preprocess s, ∃ b ∈ s, y.ord = b.ord :=
+  preprocess_forall (fun x => ∃ b ∈ s, x.ord = b.ord) (fun _ _ _ _ h => h) (fun _ _ _ _ h => h) s
+    (fun x hx => ⟨x, hx, rfl⟩)
+
+theorem daysOf_ord_mem (t : String) (s : List Tx) : ∀ d ∈ daysOf t (preprocess s), ∃ b ∈ s, d.ord = b.ord := by
+  intro d hd
+  unfold daysOf at hd
+  obtain ⟨x, hx, e⟩ := groupDays_ord_mem _ d hd
+  have hm : x ∈ indexed (preprocess s) := (List.mem_filter.mp hx).1
+  unfold indexed at hm
+  simp only [List.mem_map] at hm
+  obtain ⟨⟨y, j⟩, hy, rfl⟩ := hm
+  have hy' : y ∈ preprocess s := by
+    have := List.mem_zipIdx hy
+    rw [this.2.2]; exact List.getElem_mem _
+  obtain ⟨b, hb, e'⟩ := preprocess_ord_mem s y hy'
+  exact ⟨b, hb, by rw [e]; exact e'⟩
+
+/-- **C12 from the raw ledger, one security**: `l` is the history, `s` the lines added later, every one of
+    them dated more than 30 days after every line of `l`, none of them a capital return or accumulation of
+    security `t`. If the history alone is accepted for `t`, the extended ledger's run for `t` is the
+    history's run followed by a run of the later days from the history's closing pool: same legs for the
+    history's disposals, and any refusal is raised by the later days. -/
+theorem C12_ledger_security (l s : List Tx) (hw : WellFormed (l ++ s))
+    (hfar : ∀ a ∈ l, ∀ b ∈ s, b.ord - a.ord > bnbWindowDays) (t : String) (hne : noEventLines t s)
+    (pool1 : Option Pool) (legs1 : List Leg)
+    (h1 : runTicker t bnbWindowDays (daysOf t (preprocess l)) = .ok (pool1, legs1)) :
+    ∃ es : List Day, (∀ d ∈ es, ∃ b ∈ s, d.ord = b.ord) ∧
+      runTicker t bnbWindowDays (daysOf t (preprocess (l ++ s))) =
+      (match runDays t bnbWindowDays pool1 es [] with
+       | .error e => .error e
+       | .ok (pool2, legs2) => .ok (pool2, legs1 ++ legs2)) := by
+  have hw30 := window_is_30
+  have hlt : ∀ a ∈ l, ∀ b ∈ s, a.ord < b.ord := by
+    intro a ha b hb; have := hfar a ha b hb; omega
+  have hpre := preprocess_append l s hlt
+  have hpne : ∀ a ∈ preprocess l, ∀ b ∈ preprocess s, a.ord ≠ b.ord := by
+    intro a ha b hb
+    obtain ⟨a0, ha0, ea⟩ := preprocess_ord_mem l a ha
+    obtain ⟨b0, hb0, eb⟩ := preprocess_ord_mem s b hb
+    have := hlt a0 ha0 b0 hb0
+    omega
+  have hdays : daysOf t (preprocess (l ++ s)) =
+      daysOf t (preprocess l) ++ (daysOf t (preprocess s)).map (Day.shift (preprocess l).length) := by
+    rw [hpre]; exact daysOf_append t _ _ hpne
+  have hok := (wellFormed_days (l ++ s) hw t).1
+  rw [hdays] at hok
+  have hnev : noEvents ((daysOf t (preprocess s)).map (Day.shift (preprocess l).length)) := by
+    intro d hd
+    simp only [List.mem_map] at hd
+    obtain ⟨d0, hd0, rfl⟩ := hd
+    have := noEvents_of_raw t s hne d0 hd0
+    simp [Day.shift, this.1, this.2]
+  have hallfar : allFar bnbWindowDays (daysOf t (preprocess l)) ((daysOf t (preprocess s)).map (Day.shift (preprocess l).length)) := by
+    intro d hd
+    unfold farFrom
+    split
+    · trivial
+    · rename_i e es heq
+      have he : e ∈ (daysOf t (preprocess s)).map (Day.shift (preprocess l).length) := by rw [heq]; simp
+      simp only [List.mem_map] at he
+      obtain ⟨e0, he0, rfl⟩ := he
+      obtain ⟨b, hb, eb⟩ := daysOf_ord_mem t s e0 he0
+      obtain ⟨a, ha, ea⟩ := daysOf_ord_mem t l d hd
+      have := hfar a ha b hb
+      rw [Day.shift_ord, eb]
+      unfold Day.ord at ea
+      rw [ea]
+      exact this
+  obtain ⟨f, hf⟩ := C12_security_prefix_stable t bnbWindowDays _ _ hok hnev hallfar pool1 legs1 h1
+  refine ⟨_, ?_, by rw [hdays]; exact hf⟩
+  intro d hd
+  unfold C02.setOffsets at hd
+  simp only [List.mem_map] at hd
+  obtain ⟨d1, ⟨d0, hd0, rfl⟩, rfl⟩ := hd
+  obtain ⟨b, hb, eb⟩ := daysOf_ord_mem t s d0 hd0
+  exact ⟨b, hb, eb⟩
+
+/-- **C12 at ledger level**: if the history and the extended ledger are both accepted, every security
+    of the history for which the later lines carry no capital return / accumulation keeps, in the
+    extended ledger's result, exactly the history's legs (same order, quantities, costs, gains) as the
+    first legs of that security. -/
+theorem C12_ledger (l s : List Tx) (hw : WellFormed (l ++ s))
+    (hfar : ∀ a ∈ l, ∀ b ∈ s, b.ord - a.ord > bnbWindowDays)
+    (rs1 rs : List TickerResult) (h1 : run bnbWindowDays l = .ok rs1) (h : run bnbWindowDays (l ++ s) = .ok rs) :
+    ∀ r1 ∈ rs1, noEventLines r1.ticker s → ∀ r ∈ rs, r.ticker = r1.ticker →
+      ∃ legs2, r.legs = r1.legs ++ legs2 := by
+  intro r1 hr1 hne r hr ht
+  have e1 := C02.run_result bnbWindowDays l rs1 h1 r1 hr1
+  have e := C02.run_result bnbWindowDays (l ++ s) rs h r hr
+  rw [ht] at e
+  obtain ⟨es, _, hes⟩ := C12_ledger_security l s hw hfar r1.ticker hne r1.pool r1.legs e1
+  rw [hes] at e
+  split at e
+  · cases e
+  · rename_i pool2 legs2 _
+    simp only [Except.ok.injEq, Prod.mk.injEq] at e
+    exact ⟨legs2, e.2.symm⟩
+
+/-- … and a refusal of the extended ledger for such a security is raised while running the later days
+    from the history's closing pool: never by the history's own period. -/
+theorem C12_ledger_refusal (l s : List Tx) (hw : WellFormed (l ++ s))
+    (hfar : ∀ a ∈ l, ∀ b ∈ s, b.ord - a.ord > bnbWindowDays) (t : String) (hne : noEventLines t s)
+    (pool1 : Option Pool) (legs1 : List Leg)
+    (h1 : runTicker t bnbWindowDays (daysOf t (preprocess l)) = .ok (pool1, legs1)) (e : MErr)
+    (h : runTicker t bnbWindowDays (daysOf t (preprocess (l ++ s))) = .error e) :
+    ∃ es : List Day, (∀ d ∈ es, ∃ b ∈ s, d.ord = b.ord) ∧ runDays t bnbWindowDays pool1 es [] = .error e := by
+  obtain ⟨es, hord, hes⟩ := C12_ledger_security l s hw hfar t hne pool1 legs1 h1
+  refine ⟨es, hord, ?_⟩
+  rw [hes] at h
+  split at h
+  · rename_i e' he'
+    simp only [Except.error.injEq] at h
+    rw [he', h]
+  · cases h
+
+
+-- non-vacuity: a history with a 30-day match, later lines 31 days after its last line
+def exHist : List Tx :=
+  [ ⟨⟨2024, 1, 1⟩, "A", .buy 100 1 0⟩, ⟨⟨2024, 2, 1⟩, "A", .sell 40 2 0⟩, ⟨⟨2024, 2, 10⟩, "A", .buy 10 3 1⟩,
+    ⟨⟨2024, 2, 10⟩, "B", .accumulation 5 2 0⟩ ]
+def exLater : List Tx :=
+  [ ⟨⟨2024, 3, 12⟩, "A", .buy 40 3 0⟩, ⟨⟨2024, 3, 12⟩, "A", .split 2⟩, ⟨⟨2024, 5, 1⟩, "A", .sell 30 2 0⟩,
+    ⟨⟨2024, 6, 1⟩, "B", .capreturn 5 1 0⟩ ]
+example : WellFormed (exHist ++ exLater) ∧ (∀ a ∈ exHist, ∀ b ∈ exLater, b.ord - a.ord > bnbWindowDays) ∧
+    noEventLines "A" exLater ∧ ¬ noEventLines "B" exLater := by decide +kernel
 
 end Cgt.C12
